@@ -85,6 +85,18 @@ def make_jobs(ctx, nfn: int, wd: Path):
     jobs.append({"workdir": str(wd), "mod": "c06m_t", "helper": helper,
                  "sources": {helper: L.HELPER_SRC, "c06m_t": g0.header() + L.TEMPLATES},
                  "fns": L.template_names(), "seed": 0, "npoints": 14, "known_keys": ctx.known_keys})
+    # the exhaustive control-flow stratum (seed-independent)
+    bodies = L.exhaustive_bodies()
+    ctx.extra_cov["exhaustive_control_flow_programs"] = len(bodies)
+    for m in range(0, len(bodies), 16):
+        names = [f"e{m + i}" for i in range(len(bodies[m:m + 16]))]
+        src = "\n\n".join(f"def {n}(x, y):\n{b}\n" for n, b in zip(names, bodies[m:m + 16]))
+        mod = f"c06m_e{m // 16}"
+        jobs.append({"workdir": str(wd), "mod": mod, "helper": helper,
+                     "sources": {helper: L.HELPER_SRC, mod: g0.header() + src},
+                     "fns": names, "seed": 1, "npoints": 8, "known_keys": ctx.known_keys,
+                     "renamings": {n: [None, ["y", "x"]] for n in names}})
+    nfixed = len(jobs)
     nmod = (nfn + FNS_PER_MODULE - 1) // FNS_PER_MODULE
     for m in range(nmod):
         g = L.Gen(rng, helper, wild=0.12 if m % 3 else 0.3)
@@ -98,7 +110,7 @@ def make_jobs(ctx, nfn: int, wd: Path):
         jobs.append({"workdir": str(wd), "mod": mod, "helper": helper,
                      "sources": {helper: L.HELPER_SRC, mod: g.header() + "\n\n".join(srcs)},
                      "fns": names, "seed": rng.randrange(1 << 30), "npoints": 12, "known_keys": ctx.known_keys})
-    return jobs
+    return jobs, nfixed
 
 
 def requests_for(res):
@@ -396,9 +408,9 @@ def run(ctx):
         first = True
         while done < n:
             k = min(chunk, n - done)
-            jobs = make_jobs(ctx, k, wd)
+            jobs, nfixed = make_jobs(ctx, k, wd)
             if not first:
-                jobs = jobs[1:]
+                jobs = jobs[nfixed:]
             first = False
             run_jobs(ctx, jobs)
             done += k
